@@ -179,12 +179,21 @@ class Engine:
 
     def model_dict(self, m):
         out = {}
+        sorts = {}
         for d in m.decls():
             v = m[d]
             try:
                 out[d.name()] = v.as_long() if hasattr(v, "as_long") else str(v)
+                if z3.is_bv(v):
+                    sorts[d.name()] = v.size()
+                elif z3.is_int(v):
+                    sorts[d.name()] = 0
+                elif z3.is_bool(v):
+                    out[d.name()] = bool(z3.is_true(v))
+                    sorts[d.name()] = -1
             except Exception:
                 out[d.name()] = str(v)
+        out["__sorts__"] = sorts
         return out
 
 
@@ -573,6 +582,19 @@ class SymInt(int):
         if ENG is not None:
             ENG.stats.hash_calls += 1
         return self.z.hash()
+
+
+def pin_model(model):
+    """assume every variable of a stored model equal to its value (concrete replay through the same code)."""
+    sorts = model.get("__sorts__", {})
+    for n, w in sorts.items():
+        v = model[n]
+        if w > 0:
+            eng().assume(z3.BitVec(n, w) == z3.BitVecVal(int(v), w))
+        elif w == 0:
+            eng().assume(z3.Int(n) == int(v))
+        elif w == -1:
+            eng().assume(z3.Bool(n) == bool(v))
 
 
 def sym(name, lo=None, hi=None):
